@@ -183,6 +183,10 @@ Termination == <>(\A self \in ProcSet: pc[self] = "Done")
 
 \* END TRANSLATION
 
+\* request assignments used by the schedule-replay leg (c12_tlcsched.py)
+Req3b == [p \in {1, 2, 3} |-> CASE p = 1 -> "a" [] p = 2 -> "b" [] p = 3 -> "nf"]
+Req3c == [p \in {1, 2, 3} |-> CASE p = 1 -> "c" [] p = 2 -> "redir" [] p = 3 -> "boom1"]
+Req3d == [p \in {1, 2, 3} |-> CASE p = 1 -> "dna" [] p = 2 -> "a" [] p = 3 -> "redir2"]
 Req3 == [p \in {1, 2, 3} |-> CASE p = 1 -> "a" [] p = 2 -> "boom1" [] p = 3 -> "boom2"]
 Req4 == [p \in {1, 2, 3, 4} |-> CASE p = 1 -> "a" [] p = 2 -> "boom1" [] p = 3 -> "nf" [] p = 4 -> "boom2"]
 Done == \A p \in Procs : pc[p] = "Done"
